@@ -559,18 +559,21 @@ func vC15JudgeRouting(c *vh.Case, n *vDNet, res *vDRes, localW, localL []byte, l
 		switch {
 		case res.ConnAtEnd:
 			c.Check(res.Err == nil, "findpeer-success-when-reached", "the peer is connected after FindPeer but the call failed: %v", res.Err)
-			if res.End.Sub(res.Start) < 100*time.Second {
+			{
 				want := map[string]bool{}
 				for _, a := range res.PSAtEnd {
 					want[string(a.Bytes())] = true
 				}
-				same := len(want) == len(seen)
+				// the inner call that returns last answers with the peerstore content of that instant
+				// (= now); addresses of the earlier answer may have aged out since, so only ⊇ is judged
+				// (⊆ everything ever stored is findpeer-addresses-known above)
+				same := true
 				for k := range want {
 					if !seen[k] {
 						same = false
 					}
 				}
-				c.Check(same, "findpeer-union", "FindPeer returned %v; the union of both inner answers is the peerstore content when the later inner call returned: %v", vDAddrStrings(res.Info.Addrs), vDAddrStrings(res.PSAtEnd))
+				c.Check(same, "findpeer-union", "FindPeer returned %v; the union of both inner answers contains the peerstore content at the instant the later inner call returned: %v", vDAddrStrings(res.Info.Addrs), vDAddrStrings(res.PSAtEnd))
 			}
 			outcome = fmt.Sprintf("found%d", len(res.Info.Addrs))
 		case !contacted:
